@@ -98,7 +98,7 @@ def run(prop, tier, seed, replay=None):
     known_keys = {k["key"]: k for k in known if k.get("kind") == "known"}
 
     # ---- stage 1: proofs
-    proof = lib.proof_stage(prop)
+    proof = lib.proof_stage(prop, thorough=(tier == "thorough"))
 
     # ---- stage 2: correspondence
     if replay:
